@@ -266,6 +266,12 @@ class IOManager:
         if path == path_old:
             return
         else:
+            if group is None and not path.is_absolute():
+                # Move to the group of the model that the specs are of
+                groups = [spec._io_group for spec in io_.specs.values()]
+                group = groups[0] if groups else None
+                if any(g is not group for g in groups):
+                    raise ValueError("cannot change path")
             key = self._get_io_key(group, path)
             if key in self.ios:
                 raise ValueError("cannot change path")
